@@ -230,6 +230,14 @@ def run_pairs(case, out):
         return d
 
     d_ab = dist("angdist:value", A, B, exp, "d(A,B)")
+    if as_ == "euler":
+        # the same orientations given in radians
+        Ar, Br = np.radians(np.asarray(A, float)), np.radians(np.asarray(B, float))
+        ok_r, r_r = call(out, "angular_distance(radians)", lambda: geom.angular_distance(Ar, Br, degrees=False))
+        if ok_r and isinstance(r_r, tuple):
+            d_r = np.asarray(r_r[0], float).reshape(-1)
+            out.check(d_r.shape == (n,) and bool(np.all(np.abs(d_r - exp) <= np.where(exp < 0.01, TOL, 1e-7))), "angdist:radian_input_differs", lambda: f"{d_r[:3]} vs {exp[:3]}")
+        ok_r, r_c = call(out, "cone_inplane_distance(radians)", lambda: geom.cone_inplane_distance(Ar, Br, degrees=False))
     d_ba = dist("angdist:not_symmetric", B, A, exp, "d(B,A)")
     dist("angdist:self_not_zero", A, A, np.zeros(n), "d(A,A)")
     dist("angdist:self_not_zero", B, B, np.zeros(n), "d(B,B)")
